@@ -16,7 +16,9 @@ from . import Result, loader
 NAME = "callgraph"
 PROPERTIES = ["C13", "C16"]
 NOISE_GETTERS = [{"g": "temporal_breakdown"}, {"g": "gpu_kernel_breakdown"}, {"g": "queue_length_series"},
-                 {"g": "launch_stats"}, {"g": "comm_comp_overlap"}, {"g": "profiler_steps"}]
+                 {"g": "launch_stats"}, {"g": "comm_comp_overlap"}, {"g": "profiler_steps"},
+                 {"g": "critical_path"}, {"g": "critical_path"}, {"g": "idle_time_breakdown"},
+                 {"g": "memory_bw_series"}, {"g": "user_annotation_breakdown"}]
 
 
 def _host_op_names(world: Dict[str, Any], rank: int) -> List[str]:
@@ -70,7 +72,13 @@ def gen_history_ops(rng: Rng, world: Dict[str, Any], n: int) -> List[Dict[str, A
         elif kind == "decode":
             ops.append({"op": "decode_ids", "short": rng.chance(0.5)})
         else:
-            ops.append({"op": "battery", "getters": [dict(rng.choice(NOISE_GETTERS))]})
+            g = dict(rng.choice(NOISE_GETTERS))
+            if g["g"] in ("critical_path", "idle_time_breakdown", "memory_bw_series", "queue_length_series", "launch_stats"):
+                g["ranks"] = [rng.choice(ranks)]
+            if g["g"] == "critical_path":
+                g["annotation"] = "ProfilerStep"
+                g["instance"] = rng.choice([0, 0, 1])
+            ops.append({"op": "battery", "getters": [g]})
     return ops
 
 
@@ -306,6 +314,7 @@ def check(plan: Dict[str, Any], execution: Dict[str, Any], props: Optional[Set[s
     for si, (sess, sx) in enumerate(zip(plan["sessions"], execution["sessions"])):
         results = driver.op_results(sx)
         first_build: Dict[int, Any] = {}      # rank -> canonical stack columns of the first build
+        loaded_ids: Dict[int, Set[int]] = {}
         builds: Dict[int, int] = {}
         first_seq: Dict[str, Any] = {}
         last_built_rank = None
@@ -314,6 +323,9 @@ def check(plan: Dict[str, Any], execution: Dict[str, Any], props: Optional[Set[s
                 continue
             o = sess["ops"][r["i"]]
             fired = [e for e in r["events"] if e.get("ev") == "fault_fired"]
+            if o["op"] == "load" and r["ok"]:
+                loaded_ids = {int(k): {row["index"] for row in v if isinstance(row.get("index"), int)}
+                              for k, v in r["obs"]["ranks"].items()}
             if o["op"] == "callgraph":
                 if not r["ok"]:
                     if o.get("ranks") is not None and not set(o["ranks"]):
@@ -324,6 +336,7 @@ def check(plan: Dict[str, Any], execution: Dict[str, Any], props: Optional[Set[s
                     rank = int(rk)
                     n = builds.get(rank, 0)
                     rows = check_tree(res, fr["rows"], si, r["i"], n, "CallGraph")
+                    _check_rows_kept(res, "C13", rank, rows, loaded_ids, si, r["i"])
                     check_backward_clause(res, rows, si, r["i"], ("first" if n == 0 else "later") + "-build")
                     stack = _stack_digest(fr["rows"])
                     if rank not in first_build:
@@ -353,6 +366,7 @@ def check(plan: Dict[str, Any], execution: Dict[str, Any], props: Optional[Set[s
                     continue
                 n = builds.get(rank, 0)
                 rows = check_tree(res, obs["frame"]["rows"], si, r["i"], n, "freq_seq")
+                _check_rows_kept(res, "C16", rank, rows, loaded_ids, si, r["i"])
                 stack = _stack_digest(obs["frame"]["rows"])
                 if rank not in first_build:
                     first_build[rank] = stack
@@ -405,6 +419,20 @@ def check(plan: Dict[str, Any], execution: Dict[str, Any], props: Optional[Set[s
                     first_seq[key] = canon
                 res.states.add(("freq_seq", min(n, 3), bool(exp), int(o["min_len"]) > 100))
     return res
+
+
+def _check_rows_kept(res: Result, prop: str, rank: int, rows: Dict[int, Any], loaded_ids: Dict[int, Set[int]],
+                     si: int, oi: int) -> None:
+    """The session's frame must still hold exactly the events that the load produced: the call graph
+    (C13) and the kernel sequences (C16) are statements about the loaded trace, not about whatever an
+    earlier call left of it."""
+    want = loaded_ids.get(rank)
+    if want is None:
+        return
+    got = set(rows)
+    if got != want:
+        res.violate(prop, "session-frame-rows-changed",
+                    {"rank": rank, "lost": sorted(want - got)[:8], "n_lost": len(want - got), "gained": sorted(got - want)[:8]}, si, oi)
 
 
 def _stack_digest(rows: List[Dict[str, Any]]) -> Dict[int, List[Any]]:
